@@ -35,6 +35,8 @@ func (t Threshold) Equal(b Threshold) bool {
 
 func (t Threshold) IsValid([]byte) error {
 	switch {
+	case math.IsNaN(t.Float64()):
+		return util.ErrInvalid.Errorf("not a number threshold")
 	case t <= 0:
 		return util.ErrInvalid.Errorf("under zero threshold, %v", t)
 	case t > MaxThreshold:
